@@ -464,6 +464,8 @@ fn build_store(root: &Path, h: &Hist) {
 }
 /// what git needs to accept the directory as a bare repository
 fn make_git_repo(root: &Path) {
+    // dropping a lock removes empty directories up to the git directory, `refs` included
+    let _ = std::fs::create_dir_all(root.join("refs"));
     let objects = root.join("objects");
     if !objects.exists() {
         std::os::unix::fs::symlink(objects_dir(), &objects).expect("symlink objects");
@@ -816,7 +818,11 @@ fn git_view(root: &Path, names: &[Vec<u8>]) -> Vec<String> {
     for l in text.lines() {
         let p: Vec<&str> = l.split(' ').collect();
         if p.len() >= 3 && !p[2].is_empty() {
-            m.insert(p[0].to_string(), format!("@{}", p[2]));
+            // %(symref) is fully resolved; ask for the direct target
+            let (ok, t) = git(root, &["symbolic-ref", "--no-recurse", "-q", p[0]]);
+            if ok {
+                m.insert(p[0].to_string(), format!("@{}", t.trim()));
+            }
         } else if p.len() >= 2 {
             m.insert(p[0].to_string(), oid_text(p[1]));
         }
@@ -825,11 +831,14 @@ fn git_view(root: &Path, names: &[Vec<u8>]) -> Vec<String> {
         let n = s(n);
         if !n.starts_with("refs/") {
             // pseudo refs are not listed by for-each-ref
-            let (ok, t) = git(root, &["symbolic-ref", "-q", &n]);
+            let (ok, t) = git(root, &["symbolic-ref", "--no-recurse", "-q", &n]);
             if ok {
                 m.insert(n.clone(), format!("@{}", t.trim()));
-            } else if let Ok(c) = std::fs::read(root.join(&n)) {
-                m.insert(n.clone(), oid_text(s(&c).trim()));
+            } else {
+                let (ok, t) = git(root, &["rev-parse", "--verify", "-q", &n]);
+                if ok {
+                    m.insert(n.clone(), oid_text(t.trim()));
+                }
             }
         }
     }
@@ -837,6 +846,24 @@ fn git_view(root: &Path, names: &[Vec<u8>]) -> Vec<String> {
         out.push(format!("{k}={v}"));
     }
     out.sort();
+    out
+}
+
+/// the names an edit touches in the map: the symbolic refs it is led through, then the name it applies to
+fn chain(m: &Map, e: &E) -> Vec<Vec<u8>> {
+    let mut out = vec![e.name.clone()];
+    if e.deref {
+        let mut cur = e.name.clone();
+        for _ in 0..6 {
+            match m.get(&cur) {
+                Some(v) if v.starts_with(b"@") => {
+                    cur = v[1..].to_vec();
+                    out.push(cur.clone());
+                }
+                _ => break,
+            }
+        }
+    }
     out
 }
 
@@ -859,7 +886,24 @@ fn prop(c: &Case) -> Verdict {
     // every 8th history (by content) is also read back with git
     let ask_git = c.iter().flatten().fold(0u32, |a, b| a.wrapping_mul(31).wrapping_add(*b as u32)) % 8 == 0;
     let names = h.names.clone();
-    let (steps, git_seen) = match run_hist(&h, |root, _| if ask_git { Some(git_view(root, &names)) } else { None }) {
+    let (steps, git_seen) = match run_hist(&h, |root, _| {
+        if !ask_git {
+            return None;
+        }
+        // git needs a HEAD that is an object id or points below refs/ to accept the directory
+        let head = std::fs::read(root.join("HEAD")).unwrap_or_default();
+        let head_ok = head.starts_with(b"ref: refs/") || (head.len() >= 40 && head[..40].iter().all(|b| b.is_ascii_hexdigit()));
+        if !head_ok {
+            if root.join("HEAD").exists() {
+                return None;
+            }
+            std::fs::write(root.join("HEAD"), b"ref: refs/heads/gixv-none\n").ok()?;
+            let mut v = git_view(root, &names);
+            v.retain(|l| !l.starts_with("HEAD="));
+            return Some(v);
+        }
+        Some(git_view(root, &names))
+    }) {
         Some(x) => x,
         None => return Verdict::ok(false, "malformed"),
     };
@@ -883,26 +927,28 @@ fn prop(c: &Case) -> Verdict {
         match op {
             Op::Txn { commit, edits, .. } => {
                 let predicted = spec_txn(&m, edits);
-                // directory/file conflicts: the map has no notion of them; git refuses such transactions.
-                let touched_df = {
+                // Directory/file conflicts: the map has no notion of them; git refuses such transactions.
+                // A transaction is in conflict when a name it touches is a directory of, or lies in, another
+                // name that exists before, exists afterwards or is touched as well.
+                let touched: Vec<Vec<u8>> = edits.iter().flat_map(|e| chain(&m, e)).collect();
+                let df_txn = {
                     let mut all: Vec<Vec<u8>> = m.keys().cloned().collect();
                     if let Some(p) = &predicted {
                         all.extend(p.keys().cloned());
                     }
-                    all.extend(edits.iter().map(|e| e.name.clone()));
-                    all.sort();
-                    all.dedup();
-                    df_conflict_in(&all)
+                    all.extend(touched.iter().cloned());
+                    touched.iter().any(|t| all.iter().any(|u| dir_of(t, u) || dir_of(u, t)))
                 };
-                if touched_df {
+                if df_txn {
                     df = true;
                 }
+                let log_only = edits.iter().any(|e| e.log_only);
                 let failed_prepare = st.result.starts_with("P:err");
                 if failed_prepare || !*commit {
                     // a failed prepare and a rollback change nothing
                     if st.view != map_text(&m) {
                         return Verdict::fail(
-                            if df { "df-failed-prepare-changed-store" } else { "failed-prepare-changed-store" },
+                            "failed-prepare-changed-store",
                             format!("op {i} {}: view {:?}, before {:?}", st.result, st.view, map_text(&m)),
                         );
                     }
@@ -916,11 +962,46 @@ fn prop(c: &Case) -> Verdict {
                 if !*commit {
                     continue;
                 }
+                if df_txn {
+                    // git's answer would be a refusal; gix may refuse (lock acquisition fails), which is fine.
+                    match (&predicted, st.result.as_str()) {
+                        (_, r) if r.starts_with("P:err") => {
+                            nontrivial = true;
+                        }
+                        (_, r) if r.starts_with("C:err") => {
+                            if st.view != map_text(&m) {
+                                return Verdict::fail(
+                                    "df-commit-failed-midway",
+                                    format!("op {i}: {r}, view {:?}, before {:?}", st.view, map_text(&m)),
+                                );
+                            }
+                            nontrivial = true;
+                        }
+                        (Some(p), "ok") if st.view == map_text(p) => {
+                            let keys: Vec<Vec<u8>> = p.keys().cloned().collect();
+                            if touched.iter().any(|t| keys.iter().any(|u| p.contains_key(t) && (dir_of(t, u) || dir_of(u, t)))) {
+                                return Verdict::fail(
+                                    "df-conflicting-refs-coexist",
+                                    format!("op {i}: accepted, now {:?}", map_text(p)),
+                                );
+                            }
+                            nontrivial = true;
+                            m = p.clone();
+                        }
+                        (_, r) => {
+                            return Verdict::fail(
+                                if log_only { "log-only-expectation-ignores-packed-refs" } else { "df-state-differs-from-map" },
+                                format!("op {i}: {r}, view {:?}, map before {:?}", st.view, map_text(&m)),
+                            );
+                        }
+                    }
+                    continue;
+                }
                 match (&predicted, st.result.as_str()) {
                     (Some(p), "ok") => {
                         if st.view != map_text(p) {
                             return Verdict::fail(
-                                if df { "df-state-differs-from-map" } else { "state-differs-from-map" },
+                                "state-differs-from-map",
                                 format!("op {i}: view {:?}, map {:?}", st.view, map_text(p)),
                             );
                         }
@@ -934,13 +1015,13 @@ fn prop(c: &Case) -> Verdict {
                     }
                     (Some(_), r) => {
                         return Verdict::fail(
-                            if df { "df-refused-but-map-accepts" } else { "refused-but-map-accepts" },
+                            if log_only { "log-only-expectation-ignores-packed-refs" } else { "refused-but-map-accepts" },
                             format!("op {i}: {r}, map before {:?}", map_text(&m)),
                         );
                     }
                     (None, r) => {
                         return Verdict::fail(
-                            if df { "df-accepted-but-map-refuses" } else { "accepted-but-map-refuses" },
+                            if log_only { "log-only-expectation-ignores-packed-refs" } else { "accepted-but-map-refuses" },
                             format!("op {i}: {r}, map before {:?}", map_text(&m)),
                         );
                     }
